@@ -391,3 +391,150 @@ Definition config_norm (attrs : list (string * attr_kind)) (typed : list (string
                end
       end
   end.
+
+(* ================================================================ --strict / strict = True
+   main.py: add_invertible_flag(..., strict_flag=True) appends (dest, not default) to strict_flag_assignments;
+   process_options.set_strict_flags sets them all.  It runs (a) inside parse_section when the key "strict" of
+   ANY section is true (the section's own updates are applied after the section is parsed), (b) after the
+   config file when --strict is on the command line, before the real command-line parse. *)
+Definition strict_assignments (pairs : list (string * string)) (rows : list inv_row) (sflags : list string)
+  : list (string * bool) :=
+  flat_map (fun r => match r with (flag, _, default, dest) =>
+     if mem flag sflags then [(match dest with Some d => d | None => flag_dest flag end, negb default)] else [] end) rows.
+Definition set_strict (sa : list (string * bool)) (g : string -> val) : string -> val :=
+  fold_left (fun g dv => set_attr g (fst dv) (VBool (snd dv))) sa g.
+Fixpoint sa_get (sa : list (string * bool)) (k : string) : option bool :=
+  match sa with
+  | [] => None
+  | (d, b) :: r => match sa_get r k with Some b' => Some b' | None => if String.eqb d k then Some b else None end
+  end.
+(* global options with strict: [mypy] strict, [mypy-...] strict (yes: it sets the GLOBAL flags), --strict *)
+Definition global_get_strict (sa : list (string * bool)) (defaults : string -> val)
+           (cfg : changes) (cfg_strict pm_strict : bool) (cli : list (string * cli_act)) (cli_strict : bool) : string -> val :=
+  let g0 := if cfg_strict then set_strict sa defaults else defaults in
+  let g1 := apply_updates g0 cfg in
+  let g2 := if pm_strict then set_strict sa g1 else g1 in
+  let g3 := if cli_strict then set_strict sa g2 else g2 in
+  apply_cli g3 cli.
+Definition strict_val (on : bool) (sa : list (string * bool)) (k : string) : option val :=
+  if on then option_map VBool (sa_get sa k) else None.
+(* documented reading: explicit command-line flag > --strict > (strict of a per-module section) > explicit
+   [mypy] key > strict = True of [mypy] > default *)
+Definition spec_global_strict sa defaults cfg cfg_strict pm_strict cli cli_strict (k : string) : val :=
+  match cli_last_store cli k with Some v => v | None =>
+  match strict_val cli_strict sa k with Some v => v | None =>
+  match strict_val pm_strict sa k with Some v => v | None =>
+  match ch_get cfg k with Some v => v | None =>
+  match strict_val cfg_strict sa k with Some v => v | None => defaults k end end end end end.
+
+(* ================================================================ value conversions of config_parser
+   (pure part: str.split / str.strip on ASCII; expand_path, glob, re are not modelled) *)
+Definition is_ws (a : ascii) : bool :=
+  let n := nat_of_ascii a in (Nat.eqb n 32) || (Nat.leb 9 n && Nat.leb n 13) || (Nat.leb 28 n && Nat.leb n 31).
+Fixpoint lstrip (s : string) : string :=
+  match s with String a r => if is_ws a then lstrip r else s | EmptyString => EmptyString end.
+Fixpoint rstrip (s : string) : string :=
+  match s with
+  | EmptyString => EmptyString
+  | String a r => match rstrip r with
+                  | EmptyString => if is_ws a then EmptyString else String a EmptyString
+                  | r' => String a r'
+                  end
+  end.
+Definition strip (s : string) : string := rstrip (lstrip s).
+(* s.split(sep) / re.split("[..]", s) for a one-character separator class: never returns [] *)
+Fixpoint split_by (p : ascii -> bool) (s : string) : list string :=
+  match s with
+  | EmptyString => [EmptyString]
+  | String a r => if p a then EmptyString :: split_by p r
+                  else match split_by p r with h :: t => String a h :: t | [] => [String a EmptyString] end
+  end.
+Definition is_comma (a : ascii) : bool := Ascii.eqb a ","%char.
+Definition is_comma_colon (a : ascii) : bool := Ascii.eqb a ","%char || Ascii.eqb a ":"%char.
+(* if items and items[-1] == "": items.pop(-1) *)
+Definition pop_last_empty (l : list string) : list string :=
+  match rev l with EmptyString :: r => rev r | _ => l end.
+Definition split_commas (s : string) : list string := pop_last_empty (split_by is_comma s).
+(* ini: lambda s: [p.strip() for p in split_commas(s)] *)
+Definition ini_list (s : string) : list string := map strip (split_commas s).
+(* toml: try_split(v) on a str (strip BEFORE the pop) and on a list *)
+Definition try_split_str (p : ascii -> bool) (s : string) : list string := pop_last_empty (map strip (split_by p s)).
+Definition try_split_list (l : list string) : list string := map strip l.
+(* exclude: ini [s.strip()], toml str_or_array_as_list *)
+Definition ini_exclude (s : string) : list string := [strip s].
+Definition nonempty (s : string) : bool := match s with EmptyString => false | _ => true end.
+Definition str_or_array_str (s : string) : list string := if nonempty (strip s) then [strip s] else [].
+Definition str_or_array_list (l : list string) : list string := map strip (filter (fun p => nonempty (strip p)) l).
+Fixpoint join_with (sep : string) (l : list string) : string :=
+  match l with [] => EmptyString | [x] => x | x :: r => (x ++ sep ++ join_with sep r)%string end.
+
+(* parse_version: \A(\d)\.(\d+)\Z on ASCII digits *)
+Definition digit_val (a : ascii) : option nat :=
+  let n := nat_of_ascii a in if Nat.leb 48 n && Nat.leb n 57 then Some (n - 48) else None.
+Fixpoint digits_val (s : string) (acc : nat) : option nat :=
+  match s with
+  | EmptyString => Some acc
+  | String a r => match digit_val a with Some d => digits_val r (10 * acc + d) | None => None end
+  end.
+Inductive pv_res := PVOk (major minor : nat) | PVTooOld (* VersionTypeError: config falls back to the minimum, the command line exits *) | PVError.
+Definition parse_version (min_minor : nat) (s : string) : pv_res :=
+  match s with
+  | String a (String d r) =>
+      match digit_val a, Ascii.eqb d "."%char, r with
+      | Some major, true, String _ _ =>
+          match digits_val r 0 with
+          | Some minor =>
+              if Nat.eqb major 2 && Nat.eqb minor 7 then PVOk 2 7
+              else if Nat.eqb major 3 then (if Nat.ltb minor min_minor then PVTooOld else PVOk 3 minor)
+              else PVError
+          | None => PVError
+          end
+      | _, _, _ => PVError
+      end
+  | _ => PVError
+  end.
+
+(* ================================================================ inline "# mypy:" comments
+   split_directive: commas split, double quotes protect, an unterminated quote drops the current part *)
+Definition quote : ascii := """"%char.
+Fixpoint split_directive_go (s : string) (cur : string) (inq : bool) : list string * bool :=
+  match s with
+  | EmptyString => if inq then ([], true)
+                   else ((if nonempty cur then [strip cur] else []), false)
+  | String a r =>
+      if inq then (if Ascii.eqb a quote then split_directive_go r cur false
+                   else split_directive_go r (cur ++ String a EmptyString)%string true)
+      else if is_comma a then let pe := split_directive_go r EmptyString false in (strip cur :: fst pe, snd pe)
+      else if Ascii.eqb a quote then split_directive_go r cur true
+      else split_directive_go r (cur ++ String a EmptyString)%string false
+  end.
+Definition split_directive (s : string) : list string * bool := split_directive_go s EmptyString false.
+Fixpoint index_eq (s : string) : option nat :=
+  match s with
+  | EmptyString => None
+  | String a r => if Ascii.eqb a "="%char then Some 0 else option_map S (index_eq r)
+  end.
+Fixpoint us_of_dash (s : string) : string :=
+  match s with EmptyString => EmptyString
+             | String a r => String (if Ascii.eqb a "-"%char then "_"%char else a) (us_of_dash r) end.
+(* mypy_comments_to_config_map on one entry: (name, value) *)
+Definition comment_entry (e : string) : string * string :=
+  match index_eq e with
+  | None => (us_of_dash e, "True")
+  | Some i => (us_of_dash (strip (substring 0 i e)), strip (str_drop (S i) e))
+  end.
+(* what parse_mypy_comments does with one (lower-case) key whose value is a boolean text *)
+Inductive inline_res := IAccept (dest : string) (invert : bool) | IRejectVersion | IRejectStrict | IRejectReport
+                        | IUnrecognized | INotBool.
+Definition ends_with (suffix s : string) : bool :=
+  let n := String.length s in let k := String.length suffix in
+  Nat.leb k n && String.eqb (substring (n - k) k s) suffix.
+Definition inline_norm (attrs : list (string * attr_kind)) (typed : list (string * bool))
+           (aliases : list (string * string)) (rules : list inv_rule) (reporters : list string) (key : string) : inline_res :=
+  if String.eqb key "python_version" then IRejectVersion
+  else match config_norm attrs typed aliases rules key with
+       | CSet d inv => IAccept d inv
+       | CStrict => IRejectStrict
+       | CNotBool => INotBool
+       | CUnrecognized => IUnrecognized
+       end.
